@@ -62,13 +62,15 @@ pub fn run(r: &mut Report, ctx: &Ctx) {
                 let mut digests = serde_json::Map::new();
                 for name in transcript::SECTIONS {
                     let total = transcript::section_len(name);
+                    let collected = std::sync::Mutex::new(Vec::new());
                     let acc = par_for(transcript::BLOCKS, 1, |b, acc| {
                         let d = transcript::block_digest(name, b);
-                        acc.samples.push((b, json!(format!("{d:016x}"))));
+                        collected.lock().unwrap().push((b, json!(format!("{d:016x}"))));
                         acc.outcomes.insert(d);
                     });
-                    let mut list: Vec<(u64, Value)> = acc.samples;
+                    let mut list: Vec<(u64, Value)> = collected.into_inner().unwrap();
                     list.sort_by_key(|(k, _)| *k);
+                    assert_eq!(list.len() as u64, transcript::BLOCKS, "all block digests present");
                     digests.insert(name.to_string(), Value::Array(list.into_iter().map(|(_, v)| v).collect()));
                     s.acc.evals += total;
                     s.acc.transitions += total;
